@@ -1,9 +1,10 @@
 #!/bin/bash
-# tools/import_seed.sh C04 [W2]  : copies /tmp/seed/[W2]C04/SEED/{1,2} into /verif/seeded/C04-{1,2} (wave 2: -{3,4})
+# tools/import_seed.sh C04 [W2|W3]  : copies /tmp/seed/[Wn]C04/SEED/{1,2} into /verif/seeded/C04-{1,2} (wave 2: -{3,4}, wave 3: -{5,6})
 p="$1"; w="${2:-}"
+off=0; [ "$w" = "W2" ] && off=2; [ "$w" = "W3" ] && off=4
 for k in 1 2; do
   s=/tmp/seed/$w$p/SEED/$k
-  t=$k; [ -n "$w" ] && t=$((k+2))
+  t=$((k+off))
   if [ -f $s/patch.diff ] && [ -f $s/demo.py ] && [ -f $s/meta.json ]; then
     mkdir -p /verif/seeded/$p-$t && cp $s/patch.diff $s/demo.py $s/meta.json /verif/seeded/$p-$t/ && echo "imported $p-$t"
   else
